@@ -1552,6 +1552,7 @@ def build_cases(tier="quick"):
     ref += rewrap(PROP, c07.chunk_contract_cases(), "calldatacopy-substitution", lambda c: "concretize" in c.unit)
     ref += rewrap(PROP, c08.generic_cases(), "generic-layout-keys", lambda c: "simple_hash" in c.unit or "shape-separation" in c.unit)
     ref += rewrap(PROP, c09.returndata_cases(), "returndata-source")
+    ref += rewrap(PROP, c08.literal_before_hash_cases(), "storage-spelling")
     return stack_cases() + limit_cases() + env_cases() + memory_cases() + halt_cases() + sha3_cases() + returndata_cases() + ext_cases() + deviation_cases() + ref
 
 
